@@ -26,6 +26,10 @@ pub struct SockCase {
     pub ring_connect: bool,
     /// `Accept { addr: true }` keeps its out-parameters (else they are null)
     pub accept_addr: bool,
+    /// the lanes' unix listeners are bound to abstract-namespace names (leading NUL, length carried
+    /// by the address length alone) instead of paths
+    #[serde(default)]
+    pub abstract_listener: bool,
     pub steps: Vec<Step>,
 }
 
@@ -102,6 +106,8 @@ impl SOp {
 
 struct Lane {
     dir: String,
+    /// address of the unix listener: a path, or an abstract name (leading NUL)
+    srv: Vec<u8>,
     ulisten: i32,
     ilisten: i32,
     iport: u16,
@@ -125,11 +131,14 @@ fn sun(path: &[u8]) -> (libc::sockaddr_un, libc::socklen_t) {
     for (i, c) in path.iter().enumerate().take(107) {
         s.sun_path[i] = *c as libc::c_char;
     }
-    (s, (2 + path.len() + 1) as libc::socklen_t)
+    // abstract names (leading NUL) are exactly as long as the address length says; paths end at their NUL
+    let extra = usize::from(path.first() != Some(&0));
+    (s, (2 + path.len() + extra) as libc::socklen_t)
 }
 
 impl World {
-    fn create(prefix: &str, inet: bool) -> World {
+    fn create(prefix: &str, inet: bool, abstract_listener: bool) -> World {
+        static NAMES: std::sync::atomic::AtomicU64 = std::sync::atomic::AtomicU64::new(0);
         let mut lanes = Vec::new();
         for k in 0..NL {
             let dir = format!("{prefix}/l{k}");
@@ -141,7 +150,12 @@ impl World {
                 let file = libc::open(c.as_ptr(), libc::O_RDONLY);
                 assert!(file >= 0);
                 let ulisten = libc::socket(libc::AF_UNIX, libc::SOCK_STREAM, 0);
-                let (sa, sl) = sun(format!("{dir}/srv").as_bytes());
+                let srv: Vec<u8> = if abstract_listener {
+                    format!("\0vc18-{}-{}-{}", std::process::id(), NAMES.fetch_add(1, std::sync::atomic::Ordering::Relaxed), k).into_bytes()
+                } else {
+                    format!("{dir}/srv").into_bytes()
+                };
+                let (sa, sl) = sun(&srv);
                 assert_eq!(0, libc::bind(ulisten, (&sa as *const libc::sockaddr_un).cast(), sl), "harness: bind");
                 assert_eq!(0, libc::listen(ulisten, 128));
                 let mut ilisten = -1;
@@ -160,7 +174,7 @@ impl World {
                         ilisten = -1;
                     }
                 }
-                lanes.push(Lane { dir, ulisten, ilisten, iport, file, slots: Vec::new(), sent: Vec::new(), ipending: 0, extra: Vec::new() });
+                lanes.push(Lane { dir, srv, ulisten, ilisten, iport, file, slots: Vec::new(), sent: Vec::new(), ipending: 0, extra: Vec::new() });
             }
         }
         World { prefix: prefix.to_string(), lanes }
@@ -200,7 +214,7 @@ impl World {
                 c
             } else {
                 let c = libc::socket(libc::AF_UNIX, libc::SOCK_STREAM, 0);
-                let (sa, sl) = sun(format!("{}/srv", l.dir).as_bytes());
+                let (sa, sl) = sun(&l.srv);
                 let r = libc::connect(c, (&sa as *const libc::sockaddr_un).cast(), sl);
                 assert_eq!(0, r, "harness: unix connect failed: {}", sys::errno());
                 l.slots.push(Some(c));
@@ -381,7 +395,7 @@ impl Engine {
     fn connect_path(w: &World, lane: usize, to: u8) -> Vec<u8> {
         let l = &w.lanes[lane];
         match to % 3 {
-            0 => format!("{}/srv", l.dir).into_bytes(),
+            0 => l.srv.clone(),
             1 => format!("{}/nosuch", l.dir).into_bytes(),
             _ => format!("{}/passme", l.dir).into_bytes(),
         }
@@ -392,7 +406,11 @@ impl Engine {
         match op {
             SOp::Connect { to, .. } => {
                 let p = Self::connect_path(w, lane, *to);
-                if for_a {
+                if for_a && p.first() == Some(&0) {
+                    // an abstract address comes out of the public API as what getsockname reports for the listener
+                    let arg = rusl::network::get_unix_sock_name(rfd(w.lanes[lane].ulisten)).expect("getsockname on the harness listener");
+                    m.sockarg = Some(Box::new(arg));
+                } else if for_a {
                     let us = UnixString::try_from_bytes(&p).unwrap();
                     let arg = SocketAddressUnix::try_from_unix(&us).expect("generated socket path fits");
                     m.sockarg = Some(Box::new(arg));
@@ -1114,8 +1132,8 @@ pub fn run_case(ctx: &Ctx, case: &SockCase) -> CaseResult {
         }
     };
     let inet = inet_available();
-    let a = World::create(&format!("{}/A", root.display()), inet);
-    let b = World::create(&format!("{}/B", root.display()), inet);
+    let a = World::create(&format!("{}/A", root.display()), inet, case.abstract_listener);
+    let b = World::create(&format!("{}/B", root.display()), inet, case.abstract_listener);
     let inet = inet && a.lanes.iter().chain(b.lanes.iter()).all(|l| l.ilisten >= 0);
     let mut e = Engine { s, a, b, inet, ud_next: 0x2_0000, fds_at_start, st: Stats::default(), model: (0..NL).map(|_| LaneModel::default()).collect(), ring_connect: case.ring_connect, accept_addr: case.accept_addr };
     // every lane starts with one established connection: slot 0 the client, slot 1 the accepted end
@@ -1175,6 +1193,8 @@ pub fn run_case(ctx: &Ctx, case: &SockCase) -> CaseResult {
     rep.class_if(st.fd_passed, "descriptor-passed");
     rep.class_if(st.accepted, "connection-accepted");
     rep.class_if(st.accept_addr, "accept-with-address");
+    rep.class_if(case.abstract_listener, "abstract-unix-listener");
+    rep.class_if(case.abstract_listener && case.ring_connect && st.connected, "connect-to-abstract-address-through-the-ring");
     rep.class_if(st.accept_inet, "accept-inet");
     rep.class_if(st.connected, "connect-succeeded");
     rep.class_if(st.multi_lane, "independent-chains");
@@ -1234,5 +1254,5 @@ pub fn case_strategy(max_steps: usize) -> impl Strategy<Value = SockCase> {
     let opg = (sop_strategy(), prop::bool::weighted(0.15)).prop_map(|(op, a)| SOpG { op, a });
     let chain = (0u8..NL as u8, prop::collection::vec(opg, 1..=6)).prop_map(|(lane, ops)| SChain { lane, ops });
     let step = prop_oneof![5 => prop::collection::vec(chain, 1..=NL).prop_map(Step::Batch), 1 => (0u8..NL as u8).prop_map(|lane| Step::DirectConnect { lane })];
-    (ring::cfg_strategy(), prop::bool::weighted(0.2), prop::bool::weighted(0.2), prop::collection::vec(step, 1..=max_steps)).prop_map(|(cfg, ring_connect, accept_addr, steps)| SockCase { cfg, ring_connect, accept_addr, steps })
+    (ring::cfg_strategy(), prop::bool::weighted(0.2), prop::bool::weighted(0.2), prop::bool::weighted(0.3), prop::collection::vec(step, 1..=max_steps)).prop_map(|(cfg, ring_connect, accept_addr, abstract_listener, steps)| SockCase { cfg, ring_connect, accept_addr, abstract_listener, steps })
 }
